@@ -24,7 +24,7 @@ class C15(common.SpecCheck):
     unit_fn = "units.c15:c15_unit"
     fresh = True
     templates = 2
-    QUICK = {"nseeds": 4, "specs": 60, "round": 60, "budget": 0}
+    QUICK = {"nseeds": 4, "specs": 40, "round": 40, "budget": 0}
     THOROUGH = {"nseeds": 8, "specs": 0, "round": 96, "budget": 1200}
     rule = ("history machine: each unit is one history of 2-12 operations over a pool of 2-4 specifications (the five "
             "accelerator specs in metrics mode, generated S/O/K/T specs in plain mode), run in a pristine child of a "
@@ -116,6 +116,10 @@ class C15(common.SpecCheck):
         return vs
 
     def observe(self, spec, meta, results, stats):
+        if self.nontrivial(spec, meta):
+            self._nt = getattr(self, "_nt", set())
+            for h in results:
+                self._nt.add((orch.sha(self.case_text(spec)), h))
         stats.add("histories_with_faults" if meta["faults"] else "histories_fault_free")
         stats.add("ops", len(spec["ops"]))
         for h, r in results.items():
@@ -130,6 +134,7 @@ class C15(common.SpecCheck):
         return {k: v for k, v in result.items() if k not in ("events",)}
 
     def extend_evidence(self, ev):
+        ev["coverage"]["distinct_nontrivial"] = len(getattr(self, "_nt", set()))
         ev["coverage"]["fault_kinds_fired"] = dict(self.fault_counts)
         top = sorted(self.abort_sites.items(), key=lambda kv: -kv[1])[:25]
         ev["coverage"]["abort_landing_sites_top"] = dict(top)
